@@ -92,6 +92,7 @@ class P(Prop):
         for i in range(n):
             c = self.gen_case()
             self.oracle(c)
+            self.again_after_edit(c, lambda: self.oracle(c), p=0.2)
             if i % 4 == 0:
                 # the same Circuit object again after a new loop was added in place (no stale per-object state)
                 gates = [g for g in c.graph.nodes if c.type(g) in gen.MULTI]
